@@ -176,7 +176,12 @@ def rec_rule(repo, mir, reach, res, rule="REC"):
         if not (len(c) > 1 or c[0] in g.get(c[0], ())):
             continue
         named = [x for x in c if "{closure" not in x]
-        head = min(named) if named else min(c)
+        # a component is the tabled one if it contains the tabled head: a helper extracted from (or inlined into) a recursive
+        # function changes the membership and possibly the smallest name, not the recursion's descent argument
+        heads = [x for x in sorted(named) if x in rows]
+        head = heads[0] if heads else (min(named) if named else min(c))
+        for h in heads:
+            seen.add(h)
         seen.add(head)
         r = rows.get(head)
         loc = mir.fns[head].loc() if head in mir.fns else ""
